@@ -13,6 +13,8 @@ Unit syntax: ordinary Verus text, copied verbatim, interleaved with directives:
      //@resub <Rk> <count> /<regex>/ => "<to>"   regex rewrite, same
      //@noauto                    do not apply the automatic rules (R2, R3)
      //@sigonly                   emit only the signature + spec, terminated by ';' (trait methods)
+     //@attrs derive              keep only the item's #[derive(..)] attributes
+     //@replace_body              R8: keep the signature, drop the body (`unimplemented!()`), mark external_body: contract ASSUMED
      //@external_body             emit `#[verifier::external_body]` before the item (body kept, not verified)
      //@hoist <kind>:<name>       R14: remove a nested item from the body (extract it separately)
      //@spec                      following lines go between signature and body
@@ -208,7 +210,7 @@ def weave(unit_path, repo, verif_root, vacuity=False):
             relfile, selector = relfile.strip(), selector.strip()
             i += 1
             opts = {"as": None, "ret": None, "pub": False, "attrs": False, "subs": [], "noauto": False,
-                    "sigonly": False, "external_body": False, "spec": [], "loops": {}, "afterloops": {}, "anchors": [], "hoist": []}
+                    "sigonly": False, "external_body": False, "spec": [], "loops": {}, "afterloops": {}, "anchors": [], "hoist": [], "replace_body": False}
             while i < len(lines):
                 t = lines[i].strip()
                 if t == "//@end":
@@ -229,6 +231,10 @@ def weave(unit_path, repo, verif_root, vacuity=False):
                     opts["pub"] = True
                 elif d == "attrs":
                     opts["attrs"] = True
+                elif d == "attrs derive":
+                    opts["attrs"] = "derive"
+                elif d == "replace_body":
+                    opts["replace_body"] = True
                 elif d == "noauto":
                     opts["noauto"] = True
                 elif d == "sigonly":
@@ -289,7 +295,17 @@ def _do_extract(repo, relfile, selector, opts, sources, log, extracted):
         s, e = src.locate(selector)
     except ScanError as ex:
         raise LostAnchor(str(ex))
-    if opts["attrs"]:
+    attr_prefix = ""
+    if opts["attrs"] == "derive":
+        from rustscan import _attr_start
+        s0 = _attr_start(src.text, src.m, s, 0)
+        derives = re.findall(r"#\[derive\([^\]]*\)\]", src.text[s0:s])
+        if not derives:
+            raise LostAnchor("%s %s: no #[derive(..)] attribute found" % (relfile, selector))
+        attr_prefix = "\n".join(derives) + "\n"
+        log.append({"rule": "R4b", "where": "%s:%d" % (relfile, src.line_of(s0)), "fn": selector,
+                    "before": " ".join(src.text[s0:s].split())[:200], "after": "kept only: " + " ".join(derives)})
+    elif opts["attrs"]:
         from rustscan import _attr_start
         s = _attr_start(src.text, src.m, s, 0)
     text = src.text[s:e]
@@ -348,7 +364,7 @@ def _do_extract(repo, relfile, selector, opts, sources, log, extracted):
     if not is_fn:
         if opts["spec"] or opts["loops"] or opts["anchors"] or opts["ret"]:
             raise LostAnchor("%s: fn-only directives on a non-fn item" % name)
-        chunks.append(Chunk(text, origin("item")))
+        chunks.append(Chunk(attr_prefix + text, origin("item")))
         return chunks
     sig, body = fn_parts(text)
     if opts["ret"]:
@@ -358,6 +374,13 @@ def _do_extract(repo, relfile, selector, opts, sources, log, extracted):
         chunks.append(Chunk("\n".join(opts["spec"]), origin("spec")))
     if opts["sigonly"]:
         chunks.append(Chunk(";", origin("signature")))
+        return chunks
+    if opts.get("replace_body"):
+        # R8: the body is outside the verifier's reach; only its contract is assumed
+        log.append({"rule": "R8", "where": where, "fn": name, "before": " ".join(body.split())[:300], "after": "{ unimplemented!() }  (external_body: contract assumed)"})
+        chunks.insert(0, Chunk("#[verifier::external_body]", origin("attr")))
+        chunks.append(Chunk("{ unimplemented!() }", origin("body")))
+        rec["external_body"] = True
         return chunks
     # insertion points into body
     inserts = []  # (pos, text, part)
